@@ -180,7 +180,10 @@ func runFlags(t *simrt.Tape, keep bool) simrt.Outcome {
 				r.fail("C19.rate-max-workers", map[string]string{"word": word}, "-rate=%s without -max-workers was not refused (error: %v)", word, err)
 			}
 			r.stats["probe.unlimited-word"]++
-			bad := []string{"", "x", "1/", "1//s", "1/s/s", "1.5/s", "1/abc", "1 /s", " 10", "ten", "/s", "1/1", "0x10/s"}[t.Choose(13)]
+			bad := []string{"", "x", "1/", "1//s", "1/s/s", "1.5/s", "1/abc", "1 /s", " 10", "ten", "/s", "1/1", "0x10/s",
+				// a rate is a number of hits (>= 0) per a time unit (> 0): neither "5 per no time" nor a negative count or
+				// unit is one, and a period that does not parse is malformed whatever the count in front of it
+				"5/0s", "5/0ms", "7/0h0m0s", "5/-1s", "-5", "-5/1s", "-5/-1s", "0/xyz", "0/", "00/blah"}[t.Choose(23)]
 			if _, _, _, _, _, _, err := attackFlagValues("-rate=" + bad); err == nil {
 				r.fail("C19.rate-malformed-accepted", nil, "malformed -rate=%q was accepted", bad)
 			}
